@@ -50,6 +50,9 @@ type PathState struct {
 
 	Inputs   []Input
 	tagCount map[string]int
+	Concrete []ReplayValue // non-nil: concrete mode (inputs come from here)
+	concPos  int
+	Verbose  bool
 
 	Steps     int
 	StepCap   int
@@ -347,7 +350,22 @@ func (ps *PathState) inputName(tag string) string {
 	return fmt.Sprintf("%s#%d", tag, n)
 }
 
+func (ps *PathState) nextConcrete(tag, kind string) ReplayValue {
+	if ps.concPos >= len(ps.Concrete) {
+		panic(abort{AbortStop, "concrete replay exhausted at " + tag})
+	}
+	v := ps.Concrete[ps.concPos]
+	ps.concPos++
+	if v.Tag != tag || v.Kind != kind {
+		panic(abort{AbortUnsupported, fmt.Sprintf("concrete replay diverged: want %s/%s got %s/%s", tag, kind, v.Tag, v.Kind)})
+	}
+	return v
+}
+
 func (ps *PathState) NewScalar(tag, kind string, k types.BasicKind) value {
+	if ps.Concrete != nil {
+		return concreteOf(ps.nextConcrete(tag, kind).U, k)
+	}
 	name := ps.inputName(tag)
 	bits, _ := kindBits(k)
 	v := ps.ctx.Var(name, smt.BV(bits))
@@ -359,6 +377,14 @@ func (ps *PathState) NewScalar(tag, kind string, k types.BasicKind) value {
 }
 
 func (ps *PathState) NewBytes(tag, kind string, n int) []value {
+	if ps.Concrete != nil {
+		v := ps.nextConcrete(tag, kind)
+		r := make([]value, len(v.Bytes))
+		for i, b := range v.Bytes {
+			r[i] = uint8(b)
+		}
+		return r
+	}
 	name := ps.inputName(tag)
 	in := Input{Tag: tag, Kind: kind, Len: n}
 	r := make([]value, n)
